@@ -46,13 +46,13 @@ func (e *OpEngine) SizeThresholds() []int {
 						if _, oc := other.(*ssa.Const); !ok || oc || c.Value == nil || c.Value.Kind() != constant.Int {
 							continue
 						}
-						if v, exact := constant.Int64Val(c.Value); exact && v >= 4 && v <= 40 {
+						if v, exact := constant.Int64Val(c.Value); exact && v >= 4 && v <= 512 {
 							set[int(v)] = true
 						}
 					}
 				case *ssa.MakeSlice:
 					if c, ok := x.Len.(*ssa.Const); ok && c.Value != nil && c.Value.Kind() == constant.Int {
-						if v, exact := constant.Int64Val(c.Value); exact && v >= 4 && v <= 40 {
+						if v, exact := constant.Int64Val(c.Value); exact && v >= 4 && v <= 512 {
 							set[int(v)] = true
 						}
 					}
@@ -65,17 +65,53 @@ func (e *OpEngine) SizeThresholds() []int {
 		out = append(out, v)
 	}
 	sort.Ints(out)
-	if len(out) > 3 {
-		out = out[:3]
+	// at most three small (<= 40) and two large ones
+	var small, large []int
+	for _, v := range out {
+		if v <= 40 && len(small) < 3 {
+			small = append(small, v)
+		}
+		if v > 40 && len(large) < 2 {
+			large = append(large, v)
+		}
 	}
+	out = append(small, large...)
 	e.thresholds = &out
+	return out
+}
+
+func (e *OpEngine) smallThresholds() []int {
+	var out []int
+	for _, v := range e.SizeThresholds() {
+		if v <= 40 {
+			out = append(out, v)
+		}
+	}
+	return out
+}
+
+// largeThresholdShapes: shapes beyond the larger constants (41..512), for operations whose element
+// expressions stay linear in the operand elements (point-wise kernels, sums, extrema, contractions over a
+// unit axis): the outer extent just beyond c with 1 or 2 inner elements, and - for batch counters - a batch
+// of c+1 unit matrices.
+func (e *OpEngine) largeThresholdShapes() [][]int {
+	var out [][]int
+	for _, c := range e.SizeThresholds() {
+		if c <= 40 {
+			continue
+		}
+		out = append(out, []int{c + 1, 1})
+		if (c+2)*2 <= 700 {
+			out = append(out, []int{c + 2, 2})
+		}
+	}
 	return out
 }
 
 // thresholdShapes gives, for every harvested constant c, shapes whose sizes lie just beyond c.
 func (e *OpEngine) thresholdShapes(minRank int) [][]int {
 	var out [][]int
-	for _, c := range e.SizeThresholds() {
+	for _, c := range e.smallThresholds() {
 		if minRank <= 1 {
 			out = append(out, []int{c + 1})
 		}
